@@ -1,4 +1,5 @@
 import re, glob, os
+TYPES = {}
 def load_structs(roots):
     out = {}
     enums = {}
@@ -24,11 +25,12 @@ def load_structs(roots):
                         fields.append(cur); cur = ''
                     else: cur += ch
                 fields.append(cur)
-                names = []
+                names = []; tys = []
                 for f in fields:
-                    fm = re.match(r'\s*(pub(\([^)]*\))?\s+)?(\w+)\s*:', f)
-                    if fm: names.append(fm.group(3))
-                out.setdefault(name, names)
+                    fm = re.match(r'\s*(pub(\([^)]*\))?\s+)?(\w+)\s*:\s*(.*?)\s*$', f, flags=re.S)
+                    if fm: names.append(fm.group(3)); tys.append(' '.join(fm.group(4).split()))
+                if name not in out:
+                    out[name] = names; TYPES[name] = tys
             for m in re.finditer(r'\benum\s+(\w+)\s*\{([^{}]*)\}', src):
                 body = re.sub(r'#\[[^\]]*\]', '', m.group(2))
                 vs = []
